@@ -57,6 +57,7 @@ type c12Plan struct {
 	// FC (failed-creation plans): how the init code of an inner CREATE ends ("small" = succeeds, "big" =
 	// code deposit cannot be paid, "toolarge", "revert", "invalid"), the endowment, whether the init code
 	// pays the sink, and the gas limit of the transaction.
+	BigPay  bool   `json:"bigpay,omitempty"` // call trees: the payment unit is 2^64 wei instead of 1 wei (contracts hold 1000 units)
 	NodeTx  int    `json:"nodetx,omitempty"` // operator-node plans: 1 = [logging call, node tx], 2 = [node tx alone], 3 = [creation, node tx]
 	FC      string `json:"fc,omitempty"`
 	FCTop   bool   `json:"fctop,omitempty"` // the creation is a contract-creation transaction, not an inner CREATE
@@ -86,7 +87,7 @@ func (c12) Budget(tier string) runner.Budget {
 
 func (c12) Describe() runner.Description {
 	return runner.Description{
-		Rule:        "call-tree plans (85%): a seeded tree of 2..14 frames (depth <=5), each a deployed contract with effects (SSTORE of a per-frame slot, SSTORE / clearing of a slot shared by the storage context and committed non-empty beforehand, LOG1, 1-wei transfer to a sink, transfer of the whole balance to the sink (balance exactly 0), 1-wei payment to the root contract, CREATE of a 1-byte contract), children called by CALL / CALLCODE / DELEGATECALL / STATICCALL with full or limited gas, and an ending (RETURN, REVERT, INVALID, infinite loop, stack fault); the root gas limit is ample or starved at a seeded point. Every successful frame returns the bitmap of frames of its subtree whose effects must persist; the transaction runs through the real block executor. Oracle: final storage of every frame slot, the ordered receipt logs, sink and contract balances, contract nonces and the set of created accounts equal exactly the effects of the frames in the returned bitmap (failed frames and their subtrees contribute nothing); no frame inside a STATICCALL subtree that has effects may report success and nothing from such a subtree may persist; a failed root leaves the whole state as before except fee/nonce of the sender. Failed-creation plans (8%): a contract runs an inner CREATE (40%: CREATE2) whose init code stores, logs and optionally pays out of its endowment and then ends by returning 1 byte / 32 recognisable bytes from a frame that grew its memory beyond 4 KiB, followed by another memory-hungry frame (the deployed code must be exactly those bytes) / 200000 bytes (code deposit unpayable at the lower gas limits) / 250000 bytes (over the size limit) / REVERT / INVALID; the creator records what CREATE pushed; if it reported failure no account, storage, balance or log of the creation frame may remain and the endowment is back with the creator; in 30% of them the same init code is a contract-creation TRANSACTION: a failed one leaves no account and its receipt carries no log, a successful one has all effects. Operator-node plans (3%): the become-a-node-operator transaction (a non-contract type that calls the main node contract through the EVM and reads four logs) alone or behind a logging call / a creation in one block: every receipt carries exactly its own logs. Stake-opcode plans (5%): a contract that is the account of a registered miner executes the node's STAKE / UNSTAKE / UNSTAKEALL opcode inside a STATICCALL (25%: plain CALL as control); its balance and the miner record must be unchanged afterwards; or a contract AUTHs itself with an externally owned account's signature and AUTHCALLs a sink with value inside a STATICCALL: the account's nonce and the sink's balance must be unchanged. Cross-transaction plans (15%): 2-4 identical-shaped transactions in one block, each TLOADs a slot, records it, TSTOREs, touches storage and logs: every transaction must read transient storage empty, pay the same gas (no warm access list inherited), and its receipt must carry exactly its own log; in half of them the transactions only warm ADDRESSES (account-access opcodes, an inner CREATE, a deployment transaction) and every probe transaction not first in the block must use exactly the gas it uses alone in a block on the same parent state. distinct_nontrivial = distinct tree shapes (kinds, endings, effects, gas shares) with at least one failing inner frame.",
+		Rule:        "call-tree plans (85%): a seeded tree of 2..14 frames (depth <=5), each a deployed contract with effects (SSTORE of a per-frame slot, SSTORE / clearing of a slot shared by the storage context and committed non-empty beforehand, LOG1, transfer of one unit (1 wei, or 2^64 wei in 30% of the plans) to a sink, transfer of the whole balance to the sink (balance exactly 0), 1-wei payment to the root contract, CREATE of a 1-byte contract), children called by CALL / CALLCODE / DELEGATECALL / STATICCALL with full or limited gas, and an ending (RETURN, REVERT, INVALID, infinite loop, stack fault); the root gas limit is ample or starved at a seeded point. Every successful frame returns the bitmap of frames of its subtree whose effects must persist; the transaction runs through the real block executor. Oracle: final storage of every frame slot, the ordered receipt logs, sink and contract balances, contract nonces and the set of created accounts equal exactly the effects of the frames in the returned bitmap (failed frames and their subtrees contribute nothing); no frame inside a STATICCALL subtree that has effects may report success and nothing from such a subtree may persist; a failed root leaves the whole state as before except fee/nonce of the sender. Failed-creation plans (8%): a contract runs an inner CREATE (40%: CREATE2) whose init code stores, logs and optionally pays out of its endowment and then ends by returning 1 byte / 32 recognisable bytes from a frame that grew its memory beyond 4 KiB, followed by another memory-hungry frame (the deployed code must be exactly those bytes) / 200000 bytes (code deposit unpayable at the lower gas limits) / 250000 bytes (over the size limit) / REVERT / INVALID; the creator records what CREATE pushed; if it reported failure no account, storage, balance or log of the creation frame may remain and the endowment is back with the creator; in 30% of them the same init code is a contract-creation TRANSACTION: a failed one leaves no account and its receipt carries no log, a successful one has all effects. Operator-node plans (3%): the become-a-node-operator transaction (a non-contract type that calls the main node contract through the EVM and reads four logs) alone or behind a logging call / a creation in one block: every receipt carries exactly its own logs. Stake-opcode plans (5%): a contract that is the account of a registered miner executes the node's STAKE / UNSTAKE / UNSTAKEALL opcode inside a STATICCALL (25%: plain CALL as control); its balance and the miner record must be unchanged afterwards; or a contract AUTHs itself with an externally owned account's signature and AUTHCALLs a sink with value inside a STATICCALL: the account's nonce and the sink's balance must be unchanged. Cross-transaction plans (15%): 2-4 identical-shaped transactions in one block, each TLOADs a slot, records it, TSTOREs, touches storage and logs: every transaction must read transient storage empty, pay the same gas (no warm access list inherited), and its receipt must carry exactly its own log; in half of them the transactions only warm ADDRESSES (account-access opcodes, an inner CREATE, a deployment transaction) and every probe transaction not first in the block must use exactly the gas it uses alone in a block on the same parent state. distinct_nontrivial = distinct tree shapes (kinds, endings, effects, gas shares) with at least one failing inner frame.",
 		Assumptions: []string{"frame effects use per-frame slots/topics so that every observed value is attributable to one frame", "SELFDESTRUCT only as the ending of a CALL-kind frame (its own contract), beneficiary a sink account"},
 		Real:        []string{"vm (EVM call/create/static handling, interpreter, gas)", "executor contract executor", "core/vmexecutor (Prepare, snapshot/revert, receipts)", "storage/account (journal, access list, transient storage, logs)"},
 		Stub:        []string{"ConsensusHelper", "network"},
@@ -140,6 +141,7 @@ func (c12) Gen(seed uint64, tier string) json.RawMessage {
 	if r.Chance(0.25) {
 		n = r.Range(9, 14)
 	}
+	p.BigPay = r.Chance(0.3)
 	depth := []int{0}
 	p.Frames = append(p.Frames, c12Frame{Kind: "call"})
 	for i := 1; i < n; i++ {
@@ -191,6 +193,14 @@ var c12Sink = common.HexToAddress("0xc12f00000000000000000000000000000000beef")
 // 10 bytes of init code returning the 1-byte runtime 0x00
 var c12Init = []byte{0x60, 0x00, 0x60, 0x00, 0x53, 0x60, 0x01, 0x60, 0x00, 0xf3}
 
+// c12Unit: what one "pay" / "feed" moves; every contract of a call tree starts with 1000 units.
+func c12Unit(p *c12Plan) *big.Int {
+	if p.BigPay {
+		return new(big.Int).Lsh(big.NewInt(1), 64)
+	}
+	return big.NewInt(1)
+}
+
 func c12Code(p *c12Plan, i int) []byte {
 	f := p.Frames[i]
 	var c evmasm.Code
@@ -210,11 +220,11 @@ func c12Code(p *c12Plan, i int) []byte {
 		case "log":
 			c.Push(uint64(i*10 + k)).Push(0x20).Op(evmasm.MSTORE).Push(uint64(i)).Push(32).Push(0x20).Op(evmasm.LOG1)
 		case "pay":
-			c.Push(0).Push(0).Push(0).Push(0).Push(1).PushBytes(c12Sink.Bytes()).Op(evmasm.GAS, evmasm.CALL, evmasm.POP)
+			c.Push(0).Push(0).Push(0).Push(0).PushBytes(c12Unit(p).Bytes()).PushBytes(c12Sink.Bytes()).Op(evmasm.GAS, evmasm.CALL, evmasm.POP)
 		case "drain": // everything the executing contract holds goes to the sink: its balance becomes exactly 0
 			c.Push(0).Push(0).Push(0).Push(0).Op(evmasm.SELFBALANCE).PushBytes(c12Sink.Bytes()).Op(evmasm.GAS, evmasm.CALL, evmasm.POP)
 		case "feed": // 1 wei to the root contract
-			c.Push(0).Push(0).Push(0).Push(0).Push(1).PushBytes(c12Addr(0).Bytes()).Op(evmasm.GAS, evmasm.CALL, evmasm.POP)
+			c.Push(0).Push(0).Push(0).Push(0).PushBytes(c12Unit(p).Bytes()).PushBytes(c12Addr(0).Bytes()).Op(evmasm.GAS, evmasm.CALL, evmasm.POP)
 		case "create":
 			c.PushBytes(c12Init).Push(0x60).Op(evmasm.MSTORE).Push(10).Push(0x60+22).Push(0).Op(evmasm.CREATE, evmasm.POP)
 		}
@@ -298,7 +308,7 @@ func (c12) Exec(raw json.RawMessage, st *simrt.Stats, log *simrt.Log) *simrt.Vio
 		a := c12Addr(i)
 		s0.SetCode(a, c12Code(&p, i))
 		s0.SetNonce(a, 1)
-		s0.AddBalance(a, big.NewInt(1000))
+		s0.AddBalance(a, new(big.Int).Mul(big.NewInt(1000), c12Unit(&p)))
 		s0.SetState(a, common.BigToHash(big.NewInt(900)), common.BigToHash(big.NewInt(0x55)))
 	}
 	root, err := s0.Commit(true)
@@ -534,8 +544,8 @@ func (c12) Exec(raw json.RawMessage, st *simrt.Stats, log *simrt.Log) *simrt.Vio
 		return viol(0, "receipt-logs-wrong", where, "receipt logs %v, expected %v", gotLogs, wantLogs)
 	}
 	// balances
-	if d := new(big.Int).Sub(post.GetBalance(c12Sink), preSink); d.Cmp(big.NewInt(sinkGain)) != 0 {
-		return viol(0, "value-transfer-of-failed-frame-kept", "sink", "sink gained %s wei, persisted frames paid %d", d.String(), sinkGain)
+	if d := new(big.Int).Sub(post.GetBalance(c12Sink), preSink); d.Cmp(new(big.Int).Mul(big.NewInt(sinkGain), c12Unit(&p))) != 0 {
+		return viol(0, "value-transfer-of-failed-frame-kept", "sink", "sink gained %s wei, persisted frames paid %d units of %s wei", d.String(), sinkGain, c12Unit(&p).String())
 	}
 	for a := 0; a < nf; a++ {
 		if destroyed[a] {
@@ -547,7 +557,7 @@ func (c12) Exec(raw json.RawMessage, st *simrt.Stats, log *simrt.Log) *simrt.Vio
 		if len(post.GetCode(c12Addr(a))) == 0 {
 			return viol(a, "account-removed-by-failed-frame", "contract", "contract %d lost its code although no persisted frame destroyed it (a reverted SELFDESTRUCT left a trace)", a)
 		}
-		want := new(big.Int).Sub(pre.GetBalance(c12Addr(a)), big.NewInt(pays[a]))
+		want := new(big.Int).Sub(pre.GetBalance(c12Addr(a)), new(big.Int).Mul(big.NewInt(pays[a]), c12Unit(&p)))
 		if post.GetBalance(c12Addr(a)).Cmp(want) != 0 {
 			return viol(a, "value-transfer-of-failed-frame-kept", "contract", "contract %d balance %s, expected %s", a, post.GetBalance(c12Addr(a)).String(), want.String())
 		}
